@@ -91,6 +91,15 @@ CLAIMED = {
              "callable is an uninterpreted symmetric function, so membership depends on the two distances only).",
         note=NOTE_COMMON + " NOT decided here: nearest_neighbor_tcrdist (pwseqdist is absent from the sandbox; see not_decided in the evidence).",
         technique="contract-based deductive verification with uninterpreted distance functions", design="5/C14"),
+    "C08": dict(
+        text="distance.pdist (nested loops with invariant k = condensed index and every earlier entry filled) and distance.cdist (every cell) "
+             "are proved to follow the SciPy layout for any metric callable and to forward extra keyword arguments to every call; "
+             "WeightedLevenshtein.__init__ is proved to build the scorer with weights in rapidfuzz's (insertion, deletion, substitution) order, "
+             "calc_cdist_matrix to return M[i,j] = scorer(A[i] -> B[j]) by position with no narrowing dtype, calc_pdist_vector the condensed "
+             "upper triangle at index m*i + j - (i+2)(i+1)/2; Levenshtein delegates with unit weights.",
+        note=NOTE_COMMON + " That rapidfuzz computes the minimum-weight edit script (and its default dtype is wide enough) is an assumed "
+             "contract of a C++ extension, as is scipy squareform.",
+        technique="contract-based deductive verification: loop invariants (non-linear integer arithmetic) + assumed library contracts", design="5/C08"),
 }
 NOT_BUILT = "machinery for this property not built yet (build in progress; see DESIGN.md section 8)"
 
